@@ -26,7 +26,7 @@ TECHNIQUE = (
 )
 RULE = (
     "case = header SpecId Label ScanNr f1..fN Peptide with the Proteins column last or at a drawn position (N 0-8), "
-    "1-12 PSM rows of non-empty blank-free tokens, 1-5 proteins per row, optional DefaultDirection second line with a "
+    "1-12 PSM rows of non-empty blank-free tokens, 1-5 proteins per row, default or custom protein separator, optional DefaultDirection second line with a "
     "drawn field count, with/without final newline. Non-trivial: some row has >=2 proteins and (the Proteins column is "
     "not last or a DefaultDirection line is present or the final newline is missing). Distinct = distinct canonical JSON."
 )
@@ -63,7 +63,8 @@ def _case(draw, tier):
     if draw(st.integers(0, 3)) == 0:
         ndd = draw(st.sampled_from([len(base) + 1, len(base) + 1, 2, len(base) + 3, 1]))
         dd = ["DefaultDirection"] + draw(st.lists(token, min_size=ndd - 1, max_size=ndd - 1))
-    return {"kind": "pin", "base": base, "pos": pos, "rows": rows, "dd": dd, "final_newline": draw(st.booleans())}
+    return {"kind": "pin", "base": base, "pos": pos, "rows": rows, "dd": dd, "final_newline": draw(st.booleans()),
+            "sep_protein": draw(st.sampled_from([":", ":", ";", "|", ","]))}
 
 
 def strategy(tier):
@@ -80,7 +81,7 @@ def render(case):
     for r in case["rows"]:
         f = r["fields"]
         lines.append("\t".join(f[:pos] + r["proteins"] + f[pos:]))
-        exp.append("\t".join(f[:pos] + [":".join(r["proteins"])] + f[pos:]))
+        exp.append("\t".join(f[:pos] + [case.get("sep_protein", ":").join(r["proteins"])] + f[pos:]))
     text = "\n".join(lines) + ("\n" if case["final_newline"] else "")
     return text, exp
 
@@ -106,7 +107,11 @@ def check(case):
         return {"nontrivial": False, "classes": ["ill-formed-skipped"]}
     text, exp = render(case)
     out = StringIO()
-    guarded(pt.pin_to_valid_tsv, StringIO(text), out, sig="pin_to_valid_tsv")
+    sp = case.get("sep_protein", ":")
+    if sp == ":":
+        guarded(pt.pin_to_valid_tsv, StringIO(text), out, sig="pin_to_valid_tsv")
+    else:
+        guarded(pt.pin_to_valid_tsv, StringIO(text), out, sep_protein=sp, sig="pin_to_valid_tsv")
     got = out.getvalue()
     require(got.endswith("\n") or not got, "no-final-newline", "output does not end with a newline")
     glines = got.split("\n")[:-1]
@@ -117,7 +122,7 @@ def check(case):
     valid_out = guarded(pt.is_valid_tsv, StringIO(got), sig="is_valid_tsv")
     require(valid_out is True, "output-not-valid", "converted output is not recognised as a valid TSV")
     out2 = StringIO()
-    guarded(pt.pin_to_valid_tsv, StringIO(got), out2, sig="pin_to_valid_tsv")
+    guarded(pt.pin_to_valid_tsv, StringIO(got), out2, sep_protein=sp, sig="pin_to_valid_tsv")
     require(out2.getvalue() == got, "not-idempotent", "converting the output again changes it")
     ncol = len(case["base"]) + 1
     exp_valid = case["dd"] is None and all(len(r["proteins"]) == 1 for r in case["rows"])
@@ -134,6 +139,8 @@ def check(case):
         classes.append("no-final-newline")
     if multi:
         classes.append("multi-protein")
+    if sp != ":":
+        classes.append("custom-protein-separator")
     nontrivial = multi and (case["pos"] != len(case["base"]) or bool(case["dd"]) or not case["final_newline"])
     return {"nontrivial": nontrivial, "classes": classes, "counters": {"rows_checked": len(case["rows"])}}
 
